@@ -185,6 +185,76 @@ func pair(a, b string) string {
 	return a + "+" + b
 }
 
+// sortKeyQuiet: did no other request rewrite the attribute the index is sorted by while ev ran?
+func (c *checker) sortKeyQuiet(k, idx string, self int, ev *event) bool {
+	if idx == "key" {
+		return true
+	}
+	for _, w := range c.w[k] {
+		if !overlaps(w.start, w.end, ev.Start, ev.End) {
+			continue
+		}
+		if w.kind == "set" || (idx == "exp" && w.setsExp) {
+			return false
+		}
+	}
+	if idx == "exp" {
+		for i, o := range c.evs {
+			if i == self || o == nil || o.Kind != "pex" || !overlaps(o.Start, o.End, ev.Start, ev.End) {
+				continue
+			}
+			for _, cl := range o.Claims {
+				if cl.Key == k {
+					return false
+				}
+			}
+		}
+	}
+	return true
+}
+
+// anyCouldMatchIndexed: could any version of any record that ever existed in this run satisfy the
+// leg(s) the planner resolves through the field index? (Values come from the seeds, the Sets and the
+// PatchTreasures of the schedule, whenever they ran.)
+func (c *checker) anyCouldMatchIndexed(f *filt) bool {
+	var legs []leg
+	if f.Or {
+		legs = f.Legs
+	} else {
+		for _, l := range f.Legs {
+			if legIndexable(l) {
+				legs = []leg{l}
+				break
+			}
+		}
+	}
+	var bodies []body
+	for _, m := range c.inc {
+		for _, in := range m {
+			bodies = append(bodies, body{St: in.st, G: in.g, N: in.n})
+		}
+	}
+	for _, o := range c.ops {
+		if o.Kind == "patch" {
+			for _, b := range append([]body(nil), bodies...) {
+				b.St = o.St
+				if o.G != "" {
+					b.G = o.G
+				}
+				bodies = append(bodies, b)
+			}
+		}
+	}
+	for _, l := range legs {
+		for i := range bodies {
+			if legHolds(l, &bodies[i], 0, 0) {
+				return true
+			}
+		}
+	}
+	return false
+}
+
 // concurrentKinds lists the kinds of other requests that touched key k while [start,end] ran.
 func (c *checker) concurrentKinds(k string, self int, start, end int64) string {
 	set := map[string]bool{}
@@ -324,6 +394,15 @@ func checkLog(s *sched, lg *runLog) (findings []finding, stats map[string]int) {
 				c.stats["pex_"+cl.Status]++
 				continue
 			}
+			if cl.Key == anchorKey {
+				continue // judged below: it matches no filter this harness sends and never expires
+			}
+			if o.Kind == "sbk" && (cl.B.Bad != "" || c.inc[cl.Key][cl.B.Ver] == nil) {
+				// ShiftByKeys racing with a Delete can answer with the emptied record; it is not one
+				// of the claimers this property names
+				c.stats["bycatch_sbk_returned_emptied_record"]++
+				continue
+			}
 			if cl.B.Bad != "" {
 				c.fail("integrity:"+ev.Kind+":undecodable-body", "%s (request %d) returned key %s with %s", ev.Kind, i, cl.Key, cl.B.Bad)
 				continue
@@ -381,7 +460,16 @@ func checkLog(s *sched, lg *runLog) (findings []finding, stats map[string]int) {
 					if o.Index == "exp" && cl.Exp != 0 && ((o.From != nil && cl.Exp < tc+*o.From) || (o.To != nil && cl.Exp >= tc+*o.To)) {
 						c.fail("eligibility:shm:outside-window", "ShiftMatching (request %d) window [%v,%v) relative to Tc returned key %s with ExpiredAt Tc%+d", i, fmtOff(o.From), fmtOff(o.To), cl.Key, cl.Exp-tc)
 					}
-					if ok, cls := filterVerdict(o.F, &cl.B, cl.Exp, tc); !ok {
+					ok, cls := filterVerdict(o.F, &cl.B, cl.Exp, tc)
+					if cl.Key == anchorKey && ok {
+						ok, cls = false, "record-without-the-fields"
+					}
+					if !ok {
+						if strings.HasPrefix(cls, "indexed-leg") || cls == "or-group-indexed" {
+							if !c.anyCouldMatchIndexed(o.F) {
+								cls += ":no-record-has-the-indexed-value"
+							}
+						}
 						c.fail("eligibility:shm:filter-mismatch:"+cls, "ShiftMatching (request %d) filter %s returned key %s with body st=%s g=%s n=%d exp=Tc%+d (stamps ver=%d pv=%d): the returned record does not match the filter",
 							i, fmtFilter(o.F), cl.Key, cl.B.St, cl.B.G, cl.B.N, cl.Exp-tc, cl.B.Ver, cl.B.Pv)
 					}
@@ -413,7 +501,9 @@ func checkLog(s *sched, lg *runLog) (findings []finding, stats map[string]int) {
 						i, fmtFilter(o.F), cl.Key, cl.B.St, cl.B.G, cl.B.N, cl.B.Ver, cl.B.Pv)
 				}
 			}
-			if !posOK {
+			if !posOK || !c.sortKeyQuiet(cl.Key, idx, i, ev) {
+				// the position of a record whose sort attribute is being rewritten while the claim
+				// runs is not defined; it takes no part in the order comparison
 				continue
 			}
 			if prev != nil {
